@@ -1075,8 +1075,13 @@ def convert_avg_pool_to_conv2d(op: Operation, arch, nng) -> Operation:
     # The OFM shape of the operator, not the shape of the OFM tensor: when a RESHAPE after the pool has already been
     # bypassed the OFM tensor is the reshaped one
     ofm_shape = op.ofm_shapes[0]
-    shape = [h, w, 1, ofm_shape.depth]
-    weights = np.full(shape, 1)
+    # An average pool as a convolution: output channel c sums input channel c only (HWIO weights, one per channel on
+    # the diagonal). A [h, w, 1, depth] kernel is a convolution over ONE input channel and only right for depth 1.
+    depth = ofm_shape.depth
+    shape = [h, w, depth, depth]
+    weights = np.zeros(shape, dtype=np.int64)
+    for c in range(depth):
+        weights[:, :, c, c] = 1
     quant = QuantizationParameters(scale_f32=1 / (h * w), zero_point=0)
     # Add unit weight tensor
     op.add_input_tensor(
